@@ -35,6 +35,10 @@ def gen(tier, seed, index):
         # zero-weight cycles inside the factor tables that tie with the best acyclic derivation
         spec = G.gen_zero_cycle_spec(rng)
         return spec, dict(cls=cls, forced=['zero-weight-cycle-in-factor'], grid=True)
+    if index % 20 == 13:
+        # a cyclic component entered through one member while another member is the only user of an outside
+        # nonterminal that carries the best derivation
+        return G.gen_private_dependency_spec(rng), dict(cls=cls, forced=['scc-member-with-private-dependency'], grid=False)
     if forced == ['plain'] and cls == 'nonrec':
         spec = G.gen_broadcast_spec(rng, wdomain='log')
         return spec, dict(cls=cls, forced=['stride0-nonterminals'], grid=False)
